@@ -156,7 +156,23 @@ def check(run, ctx):
     pm = repo.func_by_role(f"{PKG}.directory_matcher.DirectoryMatcher._check_path_match", "tests one directory key against the path (the method find_matching_rule calls per key)",
                            lambda g: g.name != "find_matching_rule" and any(is_call_named(n, g.name) for n in ast.walk(fm.node)))
     sw = [n for n in ast.walk(pm.node) if is_call_named(n, "startswith")]
-    boundary = any("/" in ast.unparse(n.args[0]) or "rstrip" in ast.unparse(n.args[0]) for n in sw if n.args) or any(isinstance(n, ast.Compare) and "parts" in ast.unparse(n) for n in ast.walk(pm.node)) or any(is_call_named(n, "is_relative_to") for n in ast.walk(pm.node))
+    def _ends_with_sep(e):      # does the prefix expression provably end with the path separator?
+        if isinstance(e, ast.Constant):
+            return isinstance(e.value, str) and e.value.endswith("/")
+        if isinstance(e, ast.BinOp) and isinstance(e.op, ast.Add):
+            return _ends_with_sep(e.right)
+        if isinstance(e, ast.JoinedStr):
+            return bool(e.values) and _ends_with_sep(e.values[-1])
+        v = repo.fold(pm.module, e, pm.cls)
+        return isinstance(v, str) and v.endswith("/")
+    alts = [a for n in sw if n.args for a in (n.args[0].elts if isinstance(n.args[0], ast.Tuple) else [n.args[0]])]
+    loose = [a for a in alts if not _ends_with_sep(a)]
+    if sw and loose and not any(isinstance(n, ast.Compare) and "parts" in ast.unparse(n) for n in ast.walk(pm.node)):
+        run.finding(V4, f"DirectoryMatcher.{pm.name}", f"prefix-without-boundary:{norm(loose[0])[:40]}", f"`{norm(sw[0])[:90]}`: the alternative `{norm(loose[0])[:40]}` is a plain string prefix that does not end with the separator: the rule for directory `src` also covers `srcs/x.py` or `src_old/x.py`, which it does not contain (and those files skip the global rules)", pm.loc)
+        boundary = True     # reported above
+    else:
+        boundary = None
+    boundary = boundary or any("/" in ast.unparse(n.args[0]) or "rstrip" in ast.unparse(n.args[0]) for n in sw if n.args) or any(isinstance(n, ast.Compare) and "parts" in ast.unparse(n) for n in ast.walk(pm.node)) or any(is_call_named(n, "is_relative_to") for n in ast.walk(pm.node))
     if boundary:
         run.ok(V4, pm.name, "prefix test respects component boundaries")
     else:
